@@ -80,16 +80,19 @@ def build(fileseed, rows, eol):
         meta.append((it, eff, row, role))
         return it
 
-    gf.raw("fn generated() {" + eol)
-    for row in rows:
+    file_start = (rnd.random() < 0.5)     # the first placement sits at the very start of the file (line 1, offset 0)
+    if not file_start:
+        gf.raw("fn generated() {" + eol)
+    for ri, row in enumerate(rows):
         ind = ind_of[row["indent"]]
         eff = effect_of(row)
         dtext = comment(directive_text(row["directive"], rnd), row, rnd)
         other = comment("breadlog:no-kvp" if row["directive"] == "ignore" else "breadlog:ignore", row, rnd)
         b = row["between"]
         # a guard statement before the block: must never be affected
-        stmt(False, "guard_before", row, "none", pre="    ")
-        gf.newline()
+        if not (file_start and ri == 0):
+            stmt(False, "guard_before", row, "none", pre="    ")
+            gf.newline()
         if b not in ("directive_after", "directive_trailing"):
             gf.raw(ind + dtext + eol)
             if b == "code_line":
@@ -101,7 +104,7 @@ def build(fileseed, rows, eol):
             elif b == "other_directive":
                 gf.raw(ind + other + eol)
         for _ in range(row["blanks"]):
-            gf.raw(rnd.choice(["", "   ", "\t"]) + eol)
+            gf.raw(rnd.choice(["", "   ", "\t", "\x0c", "\u00a0 ", " \t \u2003"]) + eol)
         # subject line
         gf.raw(ind)
         if row["mb"] == "before_on_line":
@@ -121,6 +124,8 @@ def build(fileseed, rows, eol):
         stmt(False, "guard_after", row, "none", pre=ind)
         gf.newline()
         gf.raw("    let sep = 0;" + eol)
+        if file_start and ri == 0:
+            gf.raw("fn generated() {" + eol)
     gf.raw("}" + eol)
     return gf, meta
 
